@@ -82,7 +82,7 @@ PROPS = {
         "case_sets": ["compile"],
         "ops": ["COMPILE"],
         "oracle_clauses": [r"c01-.*", r"c05-lex", r"c05-parse", r"c05-brackets", r"c12-.*", r"unreadable-.*"],
-        "lean_targets": ["PqlModel.Props.C01", "PqlModel.Props.C01LexRender", "PqlModel.Props.C01Sem", "PqlModel.Props.C01Syntactic"],
+        "lean_targets": ["PqlModel.Props.C01", "PqlModel.Props.C01LexRender", "PqlModel.Props.C01Sem", "PqlModel.Props.C01Syntactic", "PqlModel.Props.C06Operand"],
         "facts": ["binaryOps", "builtinIdentifiers", "knownFunctions", "writerArityGuard", "maybeParenBare", "precedence"],
         "rule": "COMPILE: hand-written corpus of expression shapes (parentheses, signs, index, in, every built-in as operand of "
                 "every operator class) + grammar-generated programs with expressions in every position; the oracle re-reads "
@@ -93,7 +93,7 @@ PROPS = {
         "case_sets": ["content"],
         "ops": ["COMPILE", "COMPILE2", "QUOTE"],
         "oracle_clauses": [r"c04-.*", r"c05-lex", r"unreadable-.*"],
-        "lean_targets": ["PqlModel.Props.C04"],
+        "lean_targets": ["PqlModel.Props.C04", "PqlModel.Props.C05LexStatement"],
         "facts": [],
         "rule": "QUOTE: both quoting functions on every string over a 13-symbol adversarial alphabet up to length 3 (quick) / 4 "
                 "(thorough) and random longer ones; COMPILE2: generated programs compiled twice with the contents of all string "
@@ -104,7 +104,7 @@ PROPS = {
         "case_sets": ["compile", "content"],
         "ops": ["COMPILE"],
         "oracle_clauses": [r"c05-.*", r"c01-keyword-function-name", r"unreadable-.*"],
-        "lean_targets": ["PqlModel.Props.C05", "PqlModel.Props.C02Split"],
+        "lean_targets": ["PqlModel.Props.C05", "PqlModel.Props.C02Split", "PqlModel.Props.C05SplitRefines", "PqlModel.Props.C05LexStatement"],
         "facts": [],
         "rule": "COMPILE on generated, corrupted-but-accepted and adversarial-content programs; the output must lex, end in one ';', "
                 "balance brackets, parse as [WITH …] select, read only source tables or earlier CTEs, have unique generated names, "
@@ -114,7 +114,7 @@ PROPS = {
         "case_sets": ["compile"],
         "ops": ["COMPILE", "COMPILESEQ"],
         "oracle_clauses": [r"c06-.*", r"unreadable-.*"],
-        "lean_targets": ["PqlModel.Props.C06", "PqlModel.Props.C06Subst", "PqlModel.Props.C14Order"],
+        "lean_targets": ["PqlModel.Props.C06", "PqlModel.Props.C06Subst", "PqlModel.Props.C14Order", "PqlModel.Props.C06Operand"],
         "facts": ["builtinIdentifiers"],
         "rule": "COMPILE with parameter maps (names colliding with columns, constants, let names) and let chains (shadowing, "
                 "redefinition, lets after the query, uses under signs, before [, in in-lists, join conditions, row counts); the "
@@ -161,7 +161,7 @@ PROPS = {
         "case_sets": ["eval"],
         "ops": ["EVAL"],
         "oracle_clauses": [r"c02-.*", r"c05-parse", r"c05-name-capture", r"unreadable-.*"],
-        "lean_targets": ["PqlModel.Props.C02", "PqlModel.Props.C02Split"],
+        "lean_targets": ["PqlModel.Props.C02", "PqlModel.Props.C02Split", "PqlModel.Props.C05SplitRefines"],
         "facts": ["canAttachSortFalse"],
         "rule": "EVAL: every sequence of up to 3 (quick) / 4 (thorough) of the eleven operators with fixed small arguments, a corpus of "
                 "order-sensitive pipelines and random generated pipelines over tables T U V; the emitted SQL is evaluated by the "
@@ -175,7 +175,7 @@ PROPS = {
         "ops": ["EVAL"],
         "line_regex": r"6a6f696e",      # only pipelines that contain a join
         "oracle_clauses": [r"c03-.*", r"c05-parse", r"c05-name-capture", r"unreadable-.*"],
-        "lean_targets": ["PqlModel.Props.C03", "PqlModel.Props.C02Split"],
+        "lean_targets": ["PqlModel.Props.C03", "PqlModel.Props.C02Split", "PqlModel.Props.C05SplitRefines"],
         "facts": ["joinTypes", "leftJoinTableAlias", "rightJoinTableAlias"],
         "rule": "EVAL on pipelines with joins: all three kinds, bare / explicit / mixed conditions, operators before the join, "
                 "multi-operator right sides, nested and sequential joins (depth <= 2 random, corpus of shapes); evaluated as for C02; "
